@@ -564,8 +564,8 @@ def strip(sc):
 
 
 def correspond(ctx, n_sign=None, n_slice=None):
-    n_sign = n_sign or ctx.n(150, 6000)
-    n_slice = n_slice or ctx.n(120, 10000)
+    n_sign = n_sign or ctx.n(150, 4000)
+    n_slice = n_slice or ctx.n(120, 6000)
     U, alias = universe(ctx.rng)
     cases = corpus(U)
     cases += [gen_scenario(ctx.rng, U, alias, i, True) for i in range(n_sign)]
